@@ -76,6 +76,13 @@ JudgeSrc(e) ==
   IN
   IF ~cur.ok THEN {}                \* the state before the call is not an abstract registry (already reported)
   ELSE IF e.ret = "skipped" THEN {}      \* not executed (budget rule of the harness after a call that did not come back)
+  \* C14 speaks about registries, not about how they are read from XML: what a loader does with its input is
+  \* recorded for the evidence file only; the judge goes on from the registry the loader left behind
+  ELSE IF name = "LoadXML" THEN
+       IF e.ret # "ok" THEN {<<"INFO-C14", "xml-loader-rejects-input", api, e.ret>>}
+                            \cup (IF e.op.how # "doc" /\ RegDiff(ObsFn(e.reg), ExpFn(reg0)) # ""
+                                   THEN {<<"INFO-C14", "xml-loader-rejects-input-but-changes-registry", api>>} ELSE {})
+       ELSE IF diff # "" THEN {<<"INFO-C14", "xml-loader-registry-differs", api, diff>>} ELSE {}
   ELSE IF e.ret \in Crashes THEN {<<"C14", e.ret, api, cls>>}
   ELSE
        (IF e.ret # Ret(AsSt(cur), e.op) THEN {<<"C14", "ret", api, cls>>} ELSE {})
